@@ -23,6 +23,7 @@ import numpy as np
 from .. import impl, zoo
 from ..refmodel import executor, fit
 
+TMPBASE = '/dev/shm' if os.path.isdir('/dev/shm') else None
 FN = 'mc.checks.c11_schedules:case'
 FN_R = 'mc.checks.c11_schedules:real_case'
 
@@ -156,7 +157,7 @@ def case(c):
     if rb:
         viol.append({'cls': 'repeating-the-computation-changes-results',
                      'what': f'sequential run, kind={kind}: {rb[:6]}'})
-    tmp = tempfile.mkdtemp(prefix='c11_') if c['file'] else None
+    tmp = tempfile.mkdtemp(prefix='c11_', dir=TMPBASE) if c['file'] else None
     nsched = trans = 0
     orders = set()
 
@@ -178,7 +179,7 @@ def case(c):
             trans += len(sched.points)
             orders.add(tuple(tuple(o) for o in sched.orders))
             bad = differences(obs, ref)
-            if sched.calls < target + 1:
+            if k > 1 and sched.calls < target + 1:
                 viol.append({'cls': 'no-pool-used',
                              'what': f'{sched.calls} process pools created'})
             if bad:
@@ -275,14 +276,18 @@ def run(ctx):
         ctx.violation('sequential-reference-slots', FN, {'slot': b[:2]},
                       {'cls': 'slot-holds-wrong-field',
                        'what': f'slot {b[0]},{b[1]}: residual {b[2]:.2e}'})
-    ks = (1, 2, 3, 4, 16) if q else tuple(range(1, 17))
     cs = []
     for kind in KINDS:
-        for file_ in (False, True):
-            for tq in (True, False):
-                for k in ks:
-                    cs.append({'nsrc': nsrc, 'nfreq': nfreq, 'kind': kind,
-                               'k': k, 'file': file_, 'tqdm': tq})
+        if q:
+            plan = [(False, True, (1, 2, 3, 4, 16)), (False, False, (2, 4)),
+                    (True, True, (2, 4)), (True, False, (4,))]
+        else:
+            plan = [(f, t, tuple(range(1, 17))) for f in (False, True)
+                    for t in (True, False)]
+        for file_, tq, ks in plan:
+            for k in ks:
+                cs.append({'nsrc': nsrc, 'nfreq': nfreq, 'kind': kind,
+                           'k': k, 'file': file_, 'tqdm': tq})
     # most expensive first for load balance
     cs.sort(key=lambda c: -min(c['k'], nsrc*nfreq))
     ctx.explore('all-orders-of-one-call', FN, cs, engine='E3',
@@ -293,20 +298,24 @@ def run(ctx):
     cs = [{'nsrc': 2, 'nfreq': 2, 'kind': kind, 'k': 2, 'file': f,
            'tqdm': True, 'full': True}
           for kind in (('gradient',) if q else ('gradient', 'jvec'))
-          for f in (False, True)]
+          for f in ((False,) if q else (False, True))]
     ctx.explore('full-product-k2', FN, cs, engine='E3',
                 rule='max_workers=2: all schedules of ALL process_map calls '
                      'of the run (8 x 8 (x 8))',
                 time_cap=ctx.budget or (120 if q else 1200), chunksize=1)
     perms = list(itertools.permutations(range(4)))
+    if q:   # 8 of the 24 orders: identity, reversal, rotations, swaps
+        perms = [perms[i] for i in (0, 23, 9, 16, 7, 14, 3, 20)]
     cs = []
     for k in ((4,) if q else (2, 3, 4, 8, 16)):
         for file_ in (False, True):
             for kind in (('gradient',) if q else ('gradient', 'jvec')):
-                for part in range(0, 24, 6):
+                step = 4 if q else 6
+                for part in range(0, len(perms), step):
                     cs.append({'k': k, 'file': file_, 'kind': kind,
-                               'orders': perms[part:part+6]})
+                               'orders': perms[part:part+step]})
     ctx.explore('real-pool-conformance', FN_R, cs, engine='E3',
-                rule='real ProcessPoolExecutor, 4 tasks, all 24 completion '
-                     'orders forced by delays, fresh subprocess per batch',
+                rule='real ProcessPoolExecutor, 4 tasks, completion orders '
+                     '(8 representative in quick, all 24 in thorough) forced '
+                     'by delays, fresh subprocess per batch',
                 time_cap=ctx.budget or (150 if q else 1500), chunksize=1)
